@@ -218,6 +218,16 @@ func TestC16(t *testing.T) {
 			failf(rt, c, "C16 TypeMapFrom/NameMapFrom disagree with ExtractTypeNameMap for %s", typ.Name())
 		}
 		r.Eval()
+		// the maps extracted from a value carry that value itself, whatever dynamic types
+		// its interface slots hold
+		if fill != "zero" {
+			if _, perr := zoo.Project(witness, nil); perr == nil {
+				if err := roundTripWith(witness, tm, copyNames(nm)); err != nil {
+					failf(rt, c, "C16 maps extracted from a %s witness of %s do not carry the witness itself: %v\n witness: %s", fill, typ.Name(), err, zoo.Describe(witness, 300))
+				}
+				r.Eval()
+			}
+		}
 		rc := reachable(typ)
 		// sufficiency: an independently generated value of the same type round-trips
 		// with the witness's maps (types with interface slots carry dynamic types the
